@@ -706,3 +706,97 @@ pub fn gen_case(cfg: &GenCfg, rng: &mut Rng) -> Option<Case> {
 
 #[allow(dead_code)]
 fn _unused(_: GraphAnnotation) {}
+
+/// Small programs aimed at one protocol each (the swarm generator reaches them rarely).
+pub fn protocol_case(rng: &mut Rng) -> Option<Case> {
+    let ints: Vec<ScalarType> = vec![UINT8, INT8, UINT16, INT16, UINT32, INT32, UINT64, INT64];
+    let st = *rng.pick(&ints);
+    let n = 1 + rng.below(3);
+    let t = array_type(vec![n], st);
+    let inp = |t: &Type| Step { op: Operation::Input(t.clone()), deps: vec![], gdeps: vec![] };
+    let st_of = |op: Operation, deps: Vec<usize>| Step { op, deps, gdeps: vec![] };
+    let mut steps: Vec<Step>;
+    match rng.below(9) {
+        0 => {
+            // A2B -> B2A round trip, then arithmetic with a second input
+            steps = vec![inp(&t), inp(&t), st_of(Operation::A2B, vec![0]), st_of(Operation::B2A(st), vec![2]), st_of(if rng.chance(1, 2) { Operation::Add } else { Operation::Multiply }, vec![3, 1])];
+        }
+        1 => {
+            // private bit strings converted to integers
+            let w = st_bits(st) as u64;
+            let bt = array_type(vec![n, w], BIT);
+            steps = vec![inp(&bt), inp(&bt), st_of(Operation::Add, vec![0, 1]), st_of(Operation::B2A(st), vec![2])];
+            if rng.chance(1, 2) {
+                steps.push(st_of(Operation::B2A(st), vec![0]));
+                steps.push(st_of(Operation::Multiply, vec![3, 4]));
+            }
+        }
+        2 => {
+            let bt = array_type(vec![n], BIT);
+            steps = vec![inp(&t), inp(&bt), st_of(Operation::MixedMultiply, vec![0, 1])];
+            if rng.chance(1, 2) {
+                steps.push(st_of(Operation::Add, vec![2, 0]));
+            }
+        }
+        3 => {
+            let (a, b, c) = (1 + rng.below(2), 1 + rng.below(3), 1 + rng.below(2));
+            let (ta, tb) = (rng.chance(1, 2), rng.chance(1, 2));
+            let sa = if ta { vec![b, a] } else { vec![a, b] };
+            let sb = if tb { vec![c, b] } else { vec![b, c] };
+            steps = vec![inp(&array_type(sa, st)), inp(&array_type(sb, st)), st_of(Operation::Gemm(ta, tb), vec![0, 1])];
+            if rng.chance(1, 2) {
+                steps.push(st_of(Operation::Add, vec![2, 2]));
+            }
+        }
+        4 => {
+            let m = 1 + rng.below(3);
+            steps = vec![inp(&array_type(vec![n, m], st)), inp(&array_type(vec![m], st)), st_of(if rng.chance(1, 2) { Operation::Matmul } else { Operation::Dot }, vec![0, 1])];
+        }
+        5 => {
+            // comparison on private integers through A2B
+            let sg = rng.chance(1, 2);
+            steps = vec![
+                inp(&t),
+                inp(&t),
+                st_of(Operation::A2B, vec![0]),
+                st_of(Operation::A2B, vec![1]),
+                st_of(Operation::Custom(CustomOperation::new(GreaterThan { signed_comparison: sg })), vec![2, 3]),
+            ];
+            if rng.chance(1, 2) {
+                steps.push(st_of(Operation::Custom(CustomOperation::new(Max { signed_comparison: sg })), vec![2, 3]));
+                steps.push(st_of(Operation::B2A(st), vec![5]));
+            }
+        }
+        6 => {
+            // products whose resharing is postponed: (a*b) + (c*a), then multiplied again
+            steps = vec![inp(&t), inp(&t), inp(&t), st_of(Operation::Multiply, vec![0, 1]), st_of(Operation::Multiply, vec![2, 0]), st_of(Operation::Add, vec![3, 4]), st_of(Operation::Multiply, vec![5, 1])];
+        }
+        7 => {
+            // structural operations on an unreshared product
+            steps = vec![inp(&array_type(vec![2, n], st)), inp(&array_type(vec![2, n], st)), st_of(Operation::Multiply, vec![0, 1])];
+            match rng.below(4) {
+                0 => steps.push(st_of(Operation::Sum(vec![0]), vec![2])),
+                1 => steps.push(st_of(Operation::CumSum(1), vec![2])),
+                2 => steps.push(st_of(Operation::PermuteAxes(vec![1, 0]), vec![2])),
+                _ => steps.push(st_of(Operation::Get(vec![1]), vec![2])),
+            }
+            if rng.chance(1, 2) {
+                let k = steps.len() - 1;
+                steps.push(st_of(Operation::Multiply, vec![k, k]));
+            }
+        }
+        _ => {
+            // tuple / vector plumbing around a product
+            steps = vec![inp(&t), inp(&t), st_of(Operation::Multiply, vec![0, 1]), st_of(Operation::CreateTuple, vec![2, 0]), st_of(Operation::TupleGet(0), vec![3]), st_of(Operation::Add, vec![4, 1])];
+        }
+    }
+    let output = steps.len() - 1;
+    let prog = Prog { graphs: vec![GraphD { steps, output, ..Default::default() }] };
+    prog.build().ok()?;
+    let its = prog.input_types();
+    let owners = gen_owners(its.len(), rng);
+    let outputs = gen_outputs(rng);
+    let inline = gen_inline(rng);
+    let inputs = gen_inputs(&its, rng);
+    Some(Case { prog, owners, outputs, inline, inputs })
+}
